@@ -6,6 +6,8 @@ mod gen_store;
 mod rawsql;
 mod rng;
 mod store_case;
+#[cfg(feature = "c04s")]
+mod c04s;
 #[cfg(feature = "c02")]
 mod c02;
 #[cfg(feature = "c03")]
@@ -69,6 +71,8 @@ fn gen(prop: &str, seed: u64, thorough: bool, count: Option<usize>) -> Vec<Value
         "C07" => for i in 0..n(200, 4000) { let mut rr = r.fork(); out.push(gen_store::gen_c07(&mut rr, i as u64, thorough)); },
         "C16" => for i in 0..n(120, 1500) { let mut rr = r.fork(); out.push(gen_store::gen_c16(&mut rr, i as u64, page_size(), thorough)); },
         "C17" => for i in 0..n(300, 4000) { let mut rr = r.fork(); out.push(gen_store::gen_c17(&mut rr, i as u64, thorough)); },
+        #[cfg(feature = "c04s")]
+        "C04S" => out = c04s::gen(&mut r, thorough, count),
         #[cfg(feature = "c02")]
         "C02" => out = c02::gen(&mut r, thorough, count),
         #[cfg(feature = "c03")]
@@ -106,6 +110,8 @@ fn exec_case(case: &Value, tag: &str) -> Value {
     let kind = case["kind"].as_str().unwrap_or("");
     let res = std::panic::catch_unwind(std::panic::AssertUnwindSafe(|| match kind {
         "store" => store_case::exec(case, tag),
+        #[cfg(feature = "c04s")]
+        k if k == "c04s" || k.starts_with("c04s:") => c04s::exec(case, tag),
         #[cfg(feature = "c02")]
         k if k == "c02" || k.starts_with("c02:") => c02::exec(case, tag),
         #[cfg(feature = "c03")]
